@@ -21,6 +21,7 @@ Inductive dstmt :=
 | DCall (src : string)                (* a call made for its effect: recorded, in order *)
 | DRange (v lst : string) (body : list dstmt)   (* for _, v := range lst { body } *)
 | DContinue                           (* continue (of the innermost range loop) *)
+| DBreak                              (* break (out of the innermost range loop) *)
 | DOther (kind : string).
 
 (* the inputs of a run: which capabilities the server has, which equalities between an input and
@@ -45,7 +46,7 @@ Definition mkEnv a b c d e : denv := mkEnvX a b c d e (fun _ => O) (fun _ _ => N
 Fixpoint unary (i : nat) : string := match i with O => "" | S j => String "I"%char (unary j) end.
 
 (* [Cont]: a `continue` was executed; it ends the current iteration of the enclosing range loop *)
-Inductive dres := Running (s : store) | Returned (s : store) (v : string) | Stuck | Cont (s : store).
+Inductive dres := Running (s : store) | Returned (s : store) (v : string) | Stuck | Cont (s : store) | Brk (s : store).
 
 Fixpoint eval (env : denv) (s : store) (e : dexpr) : option bool :=
   match e with
@@ -74,6 +75,7 @@ Fixpoint range_loop (body : store -> dres) (v : string) (k i : nat) (s : store) 
   | O => Running s
   | S k' => match body ((v, unary i) :: s) with
             | Running s1 | Cont s1 => range_loop body v k' (S i) s1
+            | Brk s1 => Running s1            (* a `break` ends the loop; what follows the loop runs *)
             | x => x
             end
   end.
@@ -101,6 +103,7 @@ Fixpoint exec (fuel : nat) (env : denv) (l : list dstmt) (s : store) : dres :=
           | DCall c => exec f env rest (("!call", c) :: s)
           | DRange v lst body => continue (range_loop (exec f env body) v (e_len env lst) 0 s)
           | DContinue => Cont s
+          | DBreak => Brk s
           | DOther _ => Stuck
           end
       end
